@@ -231,6 +231,20 @@ func c15Matrix(rep *Report, m *model.Client, cfg engine.Config, prefix []engine.
 			}
 		}
 	}
+	// ---- SetRoot has no error result: on a read-only or finished transaction it must not change what Root() says
+	for _, st := range []string{"ro", "done-ro", "done-rw"} {
+		tx := makeTx(f, st, r)
+		before := tx.Root()
+		res := guarded(func() error { tx.SetRoot(livePage + 1); return nil })
+		rep.Evaluations++
+		rep.nontrivial("tx/" + st + "/setroot")
+		if after := tx.Root(); res != "ok" || after != before {
+			rep.violate(Violation{Kind: "oracle", Sig: "misuse-changes-state/tx/" + st + "/setroot",
+				Detail: fmt.Sprintf("SetRoot on a transaction in state %s: %s; Root() was %d, is %d", st, res, before, after),
+				Replay: c15Replay{Config: cfg, Prefix: prefix, Object: "tx", State: st, Method: "setroot", Impl: res}})
+		}
+		guarded(func() error { return tx.Close() })
+	}
 	// ---- a reader begun while a write transaction has grown the data area: the pages past the committed end
 	// are out of range for it, while the writer is open and after it rolled back
 	func() {
@@ -427,6 +441,11 @@ func c15Queue(rep *Report, m *model.Client, r *rand.Rand) {
 				check("api_ack 0 0 1 0", guarded(func() error { return q.ACK(uint(pending + extra)) }), fmt.Sprintf("ack/too-many-after-partial-ack/+%d", minInt(extra, 3)))
 			}
 		}
+	}
+	// counts that wrap around the 64-bit event id space are "more than is pending" too
+	for _, huge := range []uint{^uint(0), ^uint(0) - 1, 1 << 63, 1<<63 + 5, 1<<63 - 1} {
+		huge := huge
+		check(fmt.Sprintf("api_ack 0 %s 1 0", b01(pending == 0)), guarded(func() error { return q.ACK(huge) }), fmt.Sprintf("ack/too-many/wrap-around/%s", map[bool]string{true: "empty", false: "pending"}[pending == 0]))
 	}
 	pending2, _ := q.Pending()
 	if pending2 != pending {
